@@ -183,6 +183,12 @@ pub fn run_main(prop: &str, tier: Tier, seed: u64) -> i32 {
     let _ = std::fs::remove_dir_all(&run_dir);
     std::fs::create_dir_all(&run_dir).expect("create run dir");
     let exe = std::env::current_exe().expect("current exe");
+    // see ./check: allocator tuning inherited by every shard and every ragc child
+    for (k, v) in [("MALLOC_MMAP_THRESHOLD_", "1073741824"), ("MALLOC_TRIM_THRESHOLD_", "4294967295"), ("MALLOC_TOP_PAD_", "67108864")] {
+        if std::env::var(k).is_err() {
+            std::env::set_var(k, v);
+        }
+    }
     let mut children = Vec::new();
     for i in 0..nshards {
         let out = run_dir.join(format!("shard{}.json", i));
